@@ -387,6 +387,16 @@ def report(mod, tier, seed, m, extra_cov, wall, findings, replaying=False):
         'reach': reach_summary,
         'violation_keys': [v['key'] for v in viol][:40],
     }
+    merged_extra = {}
+    for ex in m['extra']:
+        for k, v in ex.items():
+            if isinstance(v, list):
+                merged_extra.setdefault(k, [])
+                merged_extra[k] = (merged_extra[k] + v)[:20]
+            else:
+                merged_extra[k] = v
+    if merged_extra:
+        coverage['details'] = jsonable(merged_extra)
     coverage.update(extra_cov)
     ev = {'property_id': prop, 'tier': tier, 'seed': seed, 'level': mod.LEVEL,
           'coverage': coverage, 'assumptions': list(mod.ASSUMPTIONS),
